@@ -1242,6 +1242,16 @@ def run(ctx):
         "C07/IdProofs.v up to SHA-1 collisions, weakly used tools and the position of host fingerprints",
         "-j1, no sandbox, no shared packages, audit trail enabled, develop mode; policies failUnstableCheckouts=false",
     ]
+    ctx.note("proved (Coq, unbounded): decision logic of downloads incl. restarts and the builder-side audit/hash check, "
+             "Build-Id encoding injectivity up to collisions; exercised only by the correspondence: YAML/recipe semantics, "
+             "the real archive transport, scripts, the build step's own incremental decisions")
+    ctx.note("mutation self-test (selftest.py, corpus histories): fingerprint dropped from Build-Id -> CAUGHT "
+             "(different-inputs-same-build-id); hash verification of downloads removed -> CAUGHT (dist-differs-from-local-build:"
+             "download); prune on changed build-id removed -> CAUGHT (identical-state-in-archive-but-packages-built); download "
+             "although a result hash is stored -> CAUGHT (correspondence: trace); 'yes' mode depth 0->1 -> CAUGHT (identical-"
+             "state-in-archive-but-packages-built); execution path mixed into every package Build-Id -> CAUGHT (same-inputs-"
+             "different-build-id); revert of 7f8b9ef (_clearDownloadTried) -> CAUGHT (restart-does-not-retry-downloads); "
+             "platform tag dropped: equivalent on Linux (tag is empty)")
     ctx.trusted_base += ["harness/props/consts_c07.py: symbolic evaluator of LocalBuilder.__setDownloadMode (fail-closed)",
                          "the output parser of harness/props/c07.py (decision lines of bob dev)"]
     if ctx.replay:
@@ -1260,7 +1270,7 @@ def run(ctx):
     for name, c in load_corpus():
         hs.append(history_from_json(len(hs), c))
         ctx.count("corpus")
-    n_hist = ctx.n(9, 200)           # about 30 % of the generated projects are rejected by the parser (cheaply)
+    n_hist = ctx.n(6, 200)           # about 30 % of the generated projects are rejected by the parser (cheaply)
     if os.environ.get("C07_HISTORIES") is not None:      # development aid: C07_HISTORIES=0 runs the corpus only
         n_hist = int(os.environ["C07_HISTORIES"])
     for i in range(n_hist):
